@@ -153,6 +153,58 @@ def rule_runwide_state(ctx, rep):
             return isinstance(base, ast.Name) and ("codemod" in base.id.lower() or base.id == "self")
         return False
 
+    # the execution of one codemod: everything reachable from the body of apply_codemods' loop
+    ac = ctx.prog.func("codemodder.codemodder.apply_codemods")
+    rac = ctx.resolver(ac)
+    roots = set()
+    for lp in walk_no_nested(ac.node):
+        if isinstance(lp, ast.For):
+            for c_ in ast.walk(lp):
+                if isinstance(c_, ast.Call):
+                    roots |= {t.qname for t in rac.resolve_call(c_) if isinstance(t, FuncInfo)}
+    if not roots:
+        raise AnalysisError("apply_codemods: no per-codemod calls found in its loop")
+    region = ctx.cg.reachable(roots)
+
+    def region_roots_first(q):
+        for r0 in sorted(roots):
+            if q in ctx.cg.reachable([r0]):
+                return r0
+        return sorted(roots)[0]
+
+    # objects that live as long as the run: the context's collaborators (types of what __init__ stores)
+    rinit = ctx.resolver(init)
+    collaborators = {}
+    for n in walk_no_nested(init.node):
+        if isinstance(n, (ast.Assign, ast.AnnAssign)) and n.value is not None:
+            tg = n.targets[0] if isinstance(n, ast.Assign) else n.target
+            if isinstance(tg, ast.Attribute) and isinstance(tg.value, ast.Name) and tg.value.id == "self":
+                t = rinit.type_of(n.value)
+                if t in ctx.prog.classes and t != CTX:
+                    collaborators[t] = tg.attr
+    MEASUREMENT_ONLY = {"codemodder.utils.timer.Timer": "phase timers: read only by the final log report, never by codemod logic"}
+    for cq, attr in sorted(collaborators.items()):
+        if cq in MEASUREMENT_ONLY:
+            rep.instance("R-RUNWIDE-STATE", cq, ctx.prog.classes[cq].loc(), True, detail=f"collaborator:{attr}", exempt=MEASUREMENT_ONLY[cq])
+            continue
+        for m in ctx.prog.classes[cq].methods.values():
+            if m.name == "__init__" or m.qname not in region:
+                continue
+            for a in walk_no_nested(m.node):
+                if not isinstance(a, (ast.Assign, ast.AugAssign, ast.AnnAssign)):
+                    continue
+                tgs = a.targets if isinstance(a, ast.Assign) else [a.target]
+                for t in tgs:
+                    base, key = t, None
+                    if isinstance(base, ast.Subscript):
+                        base, key = base.value, base.slice
+                    if isinstance(base, ast.Attribute) and isinstance(base.value, ast.Name) and base.value.id == "self":
+                        ok = key is not None and codemod_key(m, key)
+                        rep.check("R-RUNWIDE-STATE", m.qname, m.loc(a), ok, f"collaborator:{attr}.{base.attr}",
+                                  f"`{unparse(a)[:60]}` updates `{cq.split('.')[-1]}` (held by the context for the whole run as `{attr}`) while a codemod executes, "
+                                  "not keyed by the codemod: the next codemod's outcome depends on what this one did")
+        rep.instance("R-RUNWIDE-STATE", cq, ctx.prog.classes[cq].loc(), True, detail=f"collaborator:{attr}:scanned")
+
     for fn in ctx.prog.live_functions():
         if fn.qname == init.qname:
             continue
@@ -185,7 +237,11 @@ def rule_runwide_state(ctx, rep):
             else:
                 how = "other:" + type(par).__name__
             if how == "aggregate-read":
-                rep.instance("R-RUNWIDE-STATE", fn.qname, fn.loc(n), True, detail=f"{n.attr}:{how}")
+                # reading across all codemods is reporting; inside the execution of a codemod it is a channel from the earlier ones
+                in_region = fn.qname in region
+                rep.check("R-RUNWIDE-STATE", fn.qname, fn.loc(n), not in_region, f"{n.attr}:{how}",
+                          f"`{fn.name}` reads run-wide container `{n.attr}` across all codemods and is reachable from the execution of a single codemod "
+                          f"({' -> '.join(ctx.cg.path(region_roots_first(fn.qname), fn.qname)[-3:]) if in_region else ''}): what earlier codemods recorded steers a later one")
                 continue
             ok = key is not None and codemod_key(fn, key)
             rep.check("R-RUNWIDE-STATE", fn.qname, fn.loc(n), ok, f"{n.attr}:{how}:{unparse(key)[:20] if key is not None else ''}",
